@@ -1026,6 +1026,20 @@ def r_legal(ctx):
             if not (mentions_ref and mentions_row):
                 continue
             form = legality_form(t)
+            # the rejecting condition is the legality comparison itself: a conjunct that looks at the row's ones and is not that
+            # comparison makes the rejection depend on something else (e.g. the NUMBER of ones), so for some rows the test is skipped
+            rejecting = t if not pol else ('un', 'not', t)
+            conj = rejecting[2:] if rejecting[0] == 'bool' and rejecting[1] == 'and' else ()
+            if not pol and t[0] == 'bool' and t[1] == 'and':
+                conj = t[2:]
+            extra = [c_ for c_ in conj if legality_form(c_) is None and
+                     any(is_call(x, 'numpy.where', 'numpy.nonzero', 'numpy.flatnonzero') for x in walk_term(c_))]
+            if extra and any(legality_form(c_) is not None for c_ in conj):
+                run.refute('R-LEGAL', f, 'legality-test-on-every-row#%d' % (i + 1), f.nodes[tid].lineno,
+                           'the row is rejected only when the legality comparison fails AND %s: for the rows where that extra condition '
+                           'is false an arc that is not a de Bruijn shift is silently dropped instead of raising ValueError'
+                           % show(extra[0])[:70], inputs='rows for which the extra condition is false (e.g. exactly four ones, one of '
+                                                         'them illegal)')
             if form == 'partial':
                 run.refute('R-LEGAL', f, 'legality-test-covers-every-one#%d' % (i + 1), f.nodes[tid].lineno,
                            "the legality test %s examines a single element of the row's ones (constant subscript): an "
